@@ -3,6 +3,7 @@ Theorems: coq/Properties/C11.v over coq/Model/Regex.v (derivative semantics, lon
 Tie: correspondence — all expressions up to a size bound over a small alphabet x all strings up to a length
 bound through cpppo.regex / cpppo.regex_bytes (whole and in chunks) against the extracted reference run; the
 dumped machine graphs are also run through the engine model (Model/Engine.v)."""
+import json, os
 import itertools
 from vlib import core
 from props import engine_common as G
@@ -92,6 +93,73 @@ def enumerate_res(size, extra=''):
     return out
 
 
+def parse_re(text):
+    """regex text (the subset show() prints) -> AST; used for the hand-written corpus of larger expressions"""
+    pos = [0]
+
+    def peek():
+        return text[pos[0]] if pos[0] < len(text) else None
+
+    def alt():
+        a = cat()
+        while peek() == '|':
+            pos[0] += 1
+            a = ('alt', a, cat())
+        return a
+
+    def cat():
+        items = []
+        while peek() is not None and peek() not in '|)':
+            items.append(post())
+        if not items:
+            raise ValueError('empty branch')
+        a = items[-1]
+        for x in reversed(items[:-1]):
+            a = ('cat', x, a)
+        return a
+
+    def post():
+        a = atom()
+        while peek() is not None and peek() in '*+?{':
+            c = peek(); pos[0] += 1
+            if c == '*':
+                a = ('star', a)
+            elif c == '+':
+                a = ('plus', a)
+            elif c == '?':
+                a = ('opt', a)
+            else:
+                j = text.index('}', pos[0]); m, n = text[pos[0]:j].split(','); pos[0] = j + 1
+                a = ('rep', int(m), int(n), a)
+        return a
+
+    def atom():
+        c = peek(); pos[0] += 1
+        if c == '(':
+            a = alt(); assert peek() == ')'; pos[0] += 1
+            return a
+        if c == '.':
+            return ('set', True, '')
+        if c == '[':
+            neg = peek() == '^'
+            if neg:
+                pos[0] += 1
+            j = text.index(']', pos[0]); cs = text[pos[0]:j]; pos[0] = j + 1
+            return ('set', neg, cs)
+        return ('set', False, c)
+    a = alt()
+    assert pos[0] == len(text)
+    return a
+
+
+# larger classic shapes (loops of several states left at their head or in the middle, nested loops, overlapping branches,
+# counted repeats): every tier runs all of them on every string over {a,b,c} up to length 5
+CORPUS = ['(ab)*c', 'a(bc)*a', 'a(bc)*b', 'c|(ab)*c', '(ab|ba)*c', '(a(bc)*)+', '((ab)*c)*', '(abc)*', '(ab)+c', 'a*b.*c', '(a|b)*abb',
+          '(a*b*)*c', '(ab?c)*', 'a{2,3}b', '(ab){1,2}c', '(a|bc)+', '[ab]*c[ab]*', '(.b)*c', '([^a]b)*a', '(ab*c)+', 'a(b|c)*a',
+          '(a|b)*c(a|b)*', '(aa|b)*', '(ab|a)*b', '((a|b)(a|c))*', '(abc|ab|a)+', 'a?b?c?', '(a+b+)+c', '.*abc', '(ab)*(ba)*',
+          '(ba)*c', 'b(ca)*b', '(cb)*a', '(bc|a)*c', 'c(ab)*c', '(abc)*b', '(ca)*b|a']
+
+
 def strings(alpha, maxlen):
     for n in range(maxlen + 1):
         for t in itertools.product(alpha, repeat=n):
@@ -177,6 +245,39 @@ def impl_regex(rx, inp, bytes_mode=False, chunks=None):
     return ('ok', r[1], list(stored))
 
 
+BYTES_RES = ['\xe9+', '(a|b)*', '\xe9', '.[^\u03c0]', '[^\u03c0]+', '[^\u03c0]*', '\xe9*', '\xff+', '\x80+', '.\xe9+', '\xe9\xe9', '(\xe9\xe9)*',
+             '\u03c0+', '\u20ac+', '\u20ac*', '\u20ac', '\u20ac\u20ac', '.\u20ac', '\U0001F600+', 'a+\xe9', '\xe9a*']
+BYTES_ALPHA = 'a\xe9\u03c0\u03c1\u20ac\U0001F600'
+
+
+def bytes_deviations(thorough, chunk_report=None):
+    """every bytes machine of BYTES_RES on every string over BYTES_ALPHA (whole, and at every 2-way chunking where the whole run
+    is right) -> (regex, input, machine result, standard semantics) for every run"""
+    binputs = list(strings(BYTES_ALPHA, 4 if thorough else 3)) + ['\xff', '\xff\xff', '\x80\x80a', 'a\xff', '\xe9\xff']
+    rows = []
+    for rx in BYTES_RES:
+        r = parse_re(rx)
+        if impl_regex(rx, '', bytes_mode=True)[0] == 'build':
+            continue                                   # refused at construction (documented: a multi-byte symbol next to other edges)
+        cr = core_re(r)
+        outs = core.run_model('regex', [cr + [len(s)] + [ord(c) for c in s] for s in binputs])
+        for s, o in zip(binputs, outs):
+            enc = s.encode('utf-8')
+            whole = impl_regex(rx, s, bytes_mode=True)
+            if o[0] == 1:
+                pre = s[:o[1]].encode('utf-8'); mo = ('ok', len(pre), list(pre))
+            else:
+                mo = ('nonterminal',)
+            rows.append((rx, s, whole, mo))
+            if whole == mo and chunk_report is not None:
+                for k in range(1, len(enc)):
+                    ch = impl_regex(rx, s, bytes_mode=True, chunks=[enc[:k], enc[k:]])
+                    if ch != whole:
+                        chunk_report(dict(regex=rx, input=s, split_at=k, whole=repr(whole), chunked=repr(ch)),
+                                     'regex machine result depends on how the input is chunked')
+    return rows
+
+
 def run(ctx):
     ctx.prove()
     rng = ctx.rng
@@ -185,7 +286,8 @@ def run(ctx):
     res = enumerate_res(size)
     if not ctx.thorough:
         keep = [r for r in res if sum(1 for _ in str(r)) < 60]
-        res = keep[:40] + rng.sample(keep[40:], min(len(keep) - 40, 260))
+        big = enumerate_res(3)
+        res = keep[:40] + rng.sample(keep[40:], min(len(keep) - 40, 260)) + rng.sample(big[len(res):], 150)
     else:
         # every expression with <= 2 operators, plus a sample of those with 3
         big = enumerate_res(3)
@@ -199,16 +301,18 @@ def run(ctx):
     nontriv = set()
     sample_rows = []
     gseen = set()
+    chunk_bad = []
     # always exercised: the shapes of the recorded greenery finding
     res = res + [('opt', ('cat', ('set', False, 'a'), ('plus', ('set', False, 'a')))), ('opt', ('cat', ('plus', ('set', False, 'b')), ('set', False, 'b'))),
                  ('star', ('cat', ('set', False, 'a'), ('plus', ('set', False, 'a'))))]
     CH = 120
+    all5 = list(strings(ALPHA + 'c', 5))
+    res = [(show(r), r, False) for r in res] + [(t, parse_re(t), True) for t in CORPUS]
     for c0 in range(0, len(res), CH):
         cases, meta = [], []
-        for r in res[c0:c0 + CH]:
-            rx = show(r)
+        for rx, r, full in res[c0:c0 + CH]:
             cr = core_re(r)
-            for s in (inputs if ctx.thorough else rng.sample(inputs, min(len(inputs), 60))):
+            for s in (all5 if full else inputs if ctx.thorough else rng.sample(inputs, min(len(inputs), 60))):
                 cases.append(cr + [len(s)] + [ord(c) for c in s]); meta.append((rx, r, s))
         outs = core.run_model('regex', cases)
         ncases += len(cases)
@@ -238,53 +342,34 @@ def run(ctx):
                                   'regex machine does not consume/accept the longest viable prefix of the input')
         if len(sample_rows) < 4 and meta:
             sample_rows.append((meta[0][0], meta[0][2], outs[0]))
-    # bytes machines with a multi-byte symbol, and chunked feeding
+    # bytes machines with multi-byte symbols (2-, 3- and 4-byte UTF-8, Latin-1 range included), and chunked feeding
     nb = 0
     nknown = 0
-    bres = [('plus', ('set', False, '\xe9')), ('star', ('alt', ('set', False, 'a'), ('set', False, 'b'))), ('set', False, '\xe9'),
-            ('cat', ('set', True, ''), ('set', True, '\u03c0')), ('plus', ('set', True, '\u03c0')), ('star', ('set', True, '\u03c0')),
-            ('star', ('set', False, '\xe9'))]
-    binputs = list(strings('a\xe9\u03c0\u03c1', 4 if ctx.thorough else 3))
-    bcases, bmeta = [], []
-    for r in bres:
-        for s in binputs:
-            bcases.append(core_re(r) + [len(s)] + [ord(c) for c in s]); bmeta.append((show(r), r, s))
-    bouts = core.run_model('regex', bcases)
-    for (rx, r, s), o in zip(bmeta, bouts):
+    known_dev = json.load(open(os.path.join(core.VERIF, 'known', 'c11_bytes.json')))
+    for rx, s, whole, mo in bytes_deviations(ctx.thorough, chunk_report=lambda w, what: chunk_bad.append((w, what))):
         nb += 1
-        enc = s.encode('utf-8')
-        whole = impl_regex(rx, s, bytes_mode=True)
-        if o[0] == 1:
-            pre = s[:o[1]].encode('utf-8'); mo = ('ok', len(pre), list(pre))
-        else:
-            mo = ('nonterminal',)
-        if whole != mo:
-            if any(ord(ch) > 127 for ch in s):
-                # bytes machines are not faithful on multi-byte *input* symbols: recorded findings (known_findings.json)
-                nknown += 1
-                key = 'C11/bytes-multibyte-lead-byte-consumed' if (whole == ('nonterminal',) and mo[0] == 'ok') else 'C11/bytes-wildcard-is-one-byte'
-                ctx.violation(dict(regex=rx, input=s, machine=repr(whole), standard_semantics=repr(mo)),
-                              'bytes regex machine deviates on multi-byte input', known_key=key)
-                continue
-            ndis += 1
-            first = first or dict(regex=rx, input=s, mode='bytes', impl=repr(whole), reference=repr(mo))
-            nbad += 1
+        if whole == mo:
+            continue
+        rec = known_dev.get(rx + '\x00' + s)
+        if rec is not None and rec[0] == repr(whole):
+            # bytes machines are not faithful on multi-byte *input* symbols: recorded findings, identified input by input
+            nknown += 1
+            ctx.violation(dict(regex=rx, input=s, machine=repr(whole), standard_semantics=repr(mo)),
+                          'bytes regex machine deviates on multi-byte input', known_key=rec[1])
+            continue
+        ndis += 1
+        first = first or dict(regex=rx, input=s, mode='bytes', impl=repr(whole), reference=repr(mo))
+        nbad += 1
+        if nbad <= 6:
             ctx.violation(dict(regex=rx, input=s, mode='bytes', machine=repr(whole), standard_semantics=repr(mo)),
-                          'bytes regex machine does not consume/accept the longest viable prefix of an ASCII input')
-        for k in range(1, len(enc)):
-            if whole != mo:
-                break
-            ch = impl_regex(rx, s, bytes_mode=True, chunks=[enc[:k], enc[k:]])
-            if ch != whole:
-                nbad += 1
-                if nbad <= 3:
-                    ctx.violation(dict(regex=rx, input=s, split_at=k, whole=repr(whole), chunked=repr(ch)),
-                                  'regex machine result depends on how the input is chunked')
+                          'bytes regex machine does not consume/accept the longest viable prefix of the input')
+    for w, what in chunk_bad[:3]:
+        nbad += 1
+        ctx.violation(w, what)
     # engine model on the dumped graphs (ties Model/Engine.v to the same machines)
     from cpppo import automata as A
     eng, emeta = [], []
-    for r in res[:: max(1, len(res) // (120 if ctx.thorough else 40))]:
-        rx = show(r)
+    for rx, r, _ in res[:: max(1, len(res) // (120 if ctx.thorough else 40))]:
         try:
             m = A.regex(initial=rx, context='r', terminal=True)
             d = G.dump_machine(m)
